@@ -5,7 +5,7 @@ server.go, client.go, udp.go; ss2022/policy.go, crypto.go, udp.go; router/router
 dns/dns.go; clientgroups/clientgroups.go), restricted to the fields that decide the invariants
 named by property C18.  It mirrors the ORDER of the checks of the code (the first failing check
 decides the error class) and takes every number, table and the presence of the two load-time
-checks added for F4/F15 from the regenerated `SSV.Gen.C18`.
+checks added for F4/F15/F20 from the regenerated `SSV.Gen.C18` (absent check => the model accepts, as the code does).
 
 A configuration is a plain structure; JSON "omitted" is `none` for the policy fields and the zero
 value for everything else (that is what `encoding/json` + `omitzero` give the code).
